@@ -39,6 +39,16 @@ type Step struct {
 	// MayReject: the statement does not say whether the API accepts this edit; it may reject it
 	// (document byte-identical) or perform it, and if it reports success the model's result is due.
 	MayReject bool `json:"may_reject,omitempty"`
+	// NoFault: the generator does not attach a fault to this step (its outcome is reconciled with the
+	// observation, see Reconciler, which the before/after comparison of a crash snapshot cannot do).
+	NoFault bool `json:"no_fault,omitempty"`
+}
+
+// Reconciler is implemented by stores with steps whose result the statement leaves partly open
+// (inserting a key that is present: replaced, or kept under a derived key). After such a step has
+// succeeded the model adopts - narrowly - which of the permitted results the document shows.
+type Reconciler interface {
+	Reconcile(m Model, path string)
 }
 
 func (s Step) String() string {
@@ -352,6 +362,9 @@ func Run(st Store, h History) (*Violation, Stats, error) {
 		}
 		stats.OK++
 		model = after
+		if rc, ok := st.(Reconciler); ok {
+			rc.Reconcile(model, path)
+		}
 		obs, oerr := st.Observe(path)
 		if oerr != nil {
 			return mk("unreadable-after-success", fmt.Sprintf("the step reported success but the document can no longer be read: %v", oerr)), stats, nil
